@@ -206,10 +206,12 @@ def _build(o):
             f.setActive((o["lo"], o["hi"]))
         return f, T
     coords = [c[0] if len(c) == 1 else tuple(c) for c, _ in o["es"]]
-    pays = [p if isinstance(p, int) else U.build_fiber(p, d) for _, p in o["es"]]
+    pays = [U.dress(p) if isinstance(p, int) else U.build_fiber(p, d) for _, p in o["es"]]
     f = Fiber(coords, pays) if coords else Fiber([], [])
     if d != 0:
-        f._setDefault(d)
+        f._setDefault(U.dress(d))
+    if U.MODE["touch"]:
+        U.touch(f)
     if o["U"]:
         f.getRankAttrs().setFormat("U")
         f.setActive((o["lo"], o["hi"]))
@@ -227,6 +229,7 @@ def _snap_val(p):
         n += 1
     if isinstance(p, Fiber):
         return U.snap(p)
+    p = U.undress(p)
     if n != 1 or not isinstance(p, int):
         return [[-2, n]]
     return p
